@@ -42,6 +42,17 @@ def body_pruning(case, rec):
         )
 
 
+def enum_pruning_own(tier):
+    """Every eligible corpus reaction on its own substrate, both directions, strategy all; centre templates in the
+    quick tier, centre and full ITS in the thorough tier (exhaustive over the corpus)."""
+    from props.C03 import eligible
+
+    for i in eligible():
+        for kind in (("rc",) if tier == "quick" else ("rc", "its")):
+            for invert in (False, True):
+                yield dict(tpl=i, sub=i, kind=kind, invert=invert, strategy="all", tmaps=None)
+
+
 def strat_pruning(tier):
     from props.C03 import centre_classes, eligible
 
